@@ -362,6 +362,18 @@ class ApplyLinks(Processor):
                     new_interaction = interaction
 
                 interaction_key = (*new_interaction.atoms, new_interaction.meta.get("version", 1))
+                if mapping is None:
+                    # several interactions of a block may share atoms and version
+                    # (e.g. multi-term dihedrals of an itp file): keep all of them
+                    base_key, count = interaction_key, 0
+                    while interaction_key in self.applied_links[inter_type]:
+                        count += 1
+                        interaction_key = (*base_key, ("repeat", count))
+                else:
+                    # an interaction of a link replaces all of them
+                    for key in list(self.applied_links[inter_type]):
+                        if key[:len(interaction_key)] == interaction_key and len(key) > len(interaction_key):
+                            del self.applied_links[inter_type][key]
                 self.applied_links[inter_type][interaction_key] = (new_interaction, citations)
 
     def apply_link_between_residues(self, meta_molecule, link, link_to_resid):
